@@ -25,7 +25,7 @@ fn pool(rng: &mut Rng, s2: usize, norm: bool) -> Vec<HV> {
     let n = rng.urange(4, 7);
     for _ in 0..n {
         let mut h = rng.pick(&v).clone();
-        match rng.below(12) {
+        match rng.below(16) {
             0 => h.bh1.push(0), // trailing 'A'
             1 => h.bh2.push(0),
             2 => {
@@ -65,6 +65,27 @@ fn pool(rng: &mut Rng, s2: usize, norm: bool) -> Vec<HV> {
             9 => std::mem::swap(&mut h.bh1, &mut h.bh2),
             10 => {
                 h.bh1.clear();
+            }
+            11 => {
+                // the normalization of an existing value (same normalized part, no run data)
+                h = h.normalized();
+            }
+            12 => {
+                // a block hash of exactly maximum length made of runs whose lengths are multiples of four
+                let s0 = rng.below(64) as u8;
+                let parts = *rng.pick(&[1usize, 2, 4, 8, 16]);
+                let per = 64 / parts;
+                h.bh1 = (0..parts).flat_map(|k| std::iter::repeat((s0 + k as u8 * 5) % 64).take(per)).collect();
+                if rng.chance(1, 2) {
+                    h.bh2 = h.bh1.clone();
+                }
+            }
+            13 => {
+                h.bh2.clear();
+            }
+            14 => {
+                // full length, no runs
+                h.bh1 = (0..64).map(|k| ((k * 7 + rng.clone().usize_below(3)) % 64) as u8).collect();
             }
             _ => {}
         }
